@@ -274,9 +274,16 @@ def viewInstr (a : Attr) : Instr → Option (List Instr)
   | .inplaceAttr op t b => if b = a then some [.inplace op t []] else some []
   | .copyAttr t b => if b = a then some [.setFieldNew t 0 [t]] else some []
 
+/-- the view of an instruction list (`none` as soon as one instruction has no view) -/
+def viewList (a : Attr) : List Instr → Option (List Instr)
+  | [] => some []
+  | i :: l => match viewInstr a i, viewList a l with
+    | some x, some y => some (x ++ y)
+    | _, _ => none
+
 def viewProg (a : Attr) (p : Prog) : Option Prog :=
-  match p.body.mapM (viewInstr a) with
-  | some l => some ⟨l.flatten, p.ret⟩
+  match viewList a p.body with
+  | some l => some ⟨l, p.ret⟩
   | none => none
 
 /-- the checker's verdict on what `p` does to the objects attached as attribute `a` -/
@@ -300,6 +307,51 @@ def retSharesAttr (sem : Nat → List Int → Int) (a : Attr) (p : Prog) (v : In
   match viewProg a p with
   | some q => some (call sem q v).retSharesBuf
   | none => none
+
+/-! ## Programs with a loop (multi-scale coronagraphs: one round per scale; layered atmosphere: one per element)
+
+`L.unroll n` is the program with `n` rounds of the loop body.  The checker is run on the programs with
+zero and one round (`LoopProg.baseAll`, decidable); that the state the checker reaches after one
+round is reproduced by another round (`LoopProg.Fix`) is proved per program
+(Lemmas/EffectLoops.lean), and `Lemmas/Effects.lean: loop_safeAll` concludes that every unrolling is
+accepted on all three heaps. -/
+
+def rounds (n : Nat) (body : List Instr) : List Instr := (List.replicate n body).flatten
+
+structure LoopProg where
+  pre : List Instr
+  body : List Instr
+  post : List Instr
+  ret : Var
+
+def LoopProg.unroll (L : LoopProg) (n : Nat) : Prog := ⟨L.pre ++ rounds n L.body ++ L.post, L.ret⟩
+
+def LoopProg.view (a : Attr) (L : LoopProg) : Option LoopProg :=
+  match viewList a L.pre, viewList a L.body, viewList a L.post with
+  | some p, some b, some q => some ⟨p, b, q, L.ret⟩
+  | _, _, _ => none
+
+/-- the checker's abstract state after instruction list `p` (from the initial state) -/
+def stateAfter (p : List Instr) : Abs :=
+  match check p Abs.init with
+  | some A => A
+  | none => Abs.init
+
+/-- the checker's state after one round is reproduced by another round -/
+def LoopProg.Fix (L : LoopProg) : Prop :=
+  check L.body (stateAfter (L.pre ++ L.body)) = some (stateAfter (L.pre ++ L.body))
+
+/-- … on the field heap and on every heap on which the program has a view -/
+def LoopProg.FixAll (L : LoopProg) : Prop := L.Fix ∧ ∀ a L', L.view a = some L' → L'.Fix
+
+/-- decidable part: zero rounds and one round are accepted -/
+def LoopProg.base (L : LoopProg) : Bool := safe (L.unroll 0) && safe (L.unroll 1)
+
+/-- … on all three heaps -/
+def LoopProg.baseAll (L : LoopProg) : Bool :=
+  L.base && [Attr.grid, Attr.stokes].all fun a => match L.view a with
+    | some L' => L'.base
+    | none => false
 
 /-! # Element-internal cells
 
